@@ -31,7 +31,7 @@ type c05Case struct {
 	// legacy data is loaded unchecked); the flag is off again for the write
 	Unchecked bool `json:"unchecked,omitempty"`
 	// Via: how leaf x comes by the restricted type: "" = it is x's own type; "leafref" = x is a leafref to a sibling
-	// leaf of that type; "union" = x is a union of that type and boolean
+	// leaf of that type; "union" = x is a union of that type and boolean; "union-in-union" = that union is a member of another union
 	Via string `json:"via,omitempty"`
 }
 
@@ -73,6 +73,8 @@ func c05Module(c c05Case) *dm.Module {
 		xt = &dm.Type{Base: "leafref", Path: "../tgt", Target: lt}
 	case "union":
 		xt = &dm.Type{Base: "union", Members: []*dm.Type{lt, {Base: "boolean"}}}
+	case "union-in-union":
+		xt = &dm.Type{Base: "union", Members: []*dm.Type{{Base: "union", Members: []*dm.Type{lt, {Base: "boolean"}}}, {Base: "boolean"}}}
 	}
 	children = append(children, &dm.Node{Kind: kind, Name: "x", Type: xt}, &dm.Node{Kind: "leaf", Name: "other", Type: &dm.Type{Base: "string"}})
 	m.Top = []*dm.Node{{Kind: "container", Name: "c", Children: children}}
@@ -464,8 +466,8 @@ var c05Patterns = []string{"[a-c]*", "a+b?", "(ab|c)+", "[a-c]{2,4}", "a.*", "b.
 func c05Gen(t *rapid.T) c05Case {
 	c := c05GenBase(t)
 	c.Unchecked = rapid.IntRange(0, 3).Draw(t, "unchecked-before") == 0
-	c.Via = rapid.SampledFrom([]string{"", "", "", "leafref", "union"}).Draw(t, "via")
-	if c.Via == "union" && c.LeafList {
+	c.Via = rapid.SampledFrom([]string{"", "", "", "leafref", "union", "union-in-union"}).Draw(t, "via")
+	if (c.Via == "union" || c.Via == "union-in-union") && c.LeafList {
 		c.Via = "" // (the harness has no leaf-lists of unions)
 	}
 	return c
